@@ -215,4 +215,14 @@ def replay(ctx, rep):
               (mo[i]["ok"], sorted(mo[i]["executed"])) if isinstance(mo, list) and i < len(mo) else mo))
         if x["ok"] != y["ok"] or sorted(x["executed"]) != sorted(y["executed"]):
             rc = 1
+        if x.get("run_out") != y.get("run_out"):
+            print("   `grog run` printed", x.get("run_out"), "under all and", y.get("run_out"), "under minimal")
+            rc = 1
+        for l in sorted(set(y["executed"])):
+            t = H.final_ws(h)["targets"].get(l)
+            for op in (H.all_outs(t) if t and y["ok"] else []):
+                pth = H.out_path(t, op)
+                if x["fs"].get(pth) != y["fs"].get(pth):
+                    print("   output %s of %s (executed under minimal) differs between the modes" % (pth, l))
+                    rc = 1
     return rc
